@@ -327,6 +327,23 @@ def render_plain(toks):
 
 
 # ------------------------------------------------------------------------------------------------ enumerated brace shapes
+def brace_shapes_ml(max_levels=2):
+    """like brace_shapes, with every subset of the headers (and the outer `if (a)`) written over two lines"""
+    import itertools
+    for name, src in brace_shapes(max_levels):
+        spots = [m.start() for m in __import__('re').finditer(r' > | < |-- > ', src) if src[:m.start()].count('\n') >= 2]
+        spots = spots[:3]
+        for mask in itertools.product((0, 1), repeat=len(spots)):
+            if not any(mask):
+                continue
+            t = src
+            for pos, on in sorted(zip(spots, mask), reverse=True):
+                if on:
+                    k = t.index(' ', pos + 1)
+                    t = t[:k] + '\n           ' + t[k + 1:]
+            yield (name + '|ml' + ''.join(map(str, mask)), t)
+
+
 def brace_shapes(max_levels=3):
     """Small complete C programs enumerating every nesting of up to `max_levels` compound headers (if / for / while / else-less if),
     each level braced or not, around an innermost `if (p) x = 1;` or plain statement, followed (or not) by `else`: the shapes on which
